@@ -293,6 +293,7 @@ theorem sh_execSliceIndex (ha : a ≤ N) (hL : L ≤ N) : RelS (Sh bp k N a) (Po
   unfold execSliceIndex; shrun
 theorem sh_execIterInit (ha : a ≤ N) (hL : L ≤ N) : RelS (Sh bp k N a) (PostC bp k L) execIterInit execIterInit := by
   unfold execIterInit; shrun
+set_option maxHeartbeats 3200000 in
 theorem sh_execIterNext (op : Nat) (ha : a ≤ N) (hL : L ≤ N) :
     RelS (Sh bp k N a) (PostC bp k L) (execIterNext op) (execIterNext op) := by
   unfold execIterNext; shrun
